@@ -21,10 +21,10 @@ MANIFEST = {
 INVARIANTS = ["C39_AlwaysRunRuns", "C39_CurrentAttempt"]
 PROPERTIES = ["C39_OnlyCurrentCompletes", "C39_NoDoubleRun"]
 LIVE = ["C39_Terminates", "C39_CancelledCompletes"]
-QUICK = ["chain2", "nest_s"]
-THOROUGH = ["chain2", "nest_s", "sib", "upd2", "diamond", "jpim_s", "retry_s", "grp2"]
-LIVE_QUICK = ["chain2", "nest_s", "jpim_s"]
-LIVE_THOROUGH = ["chain2", "nest_s", "jpim_s", "sib", "upd2", "diamond", "grp2", "clean"]
+QUICK = ["chain2", "alw", "jpim_s"]
+THOROUGH = ["chain2", "alw", "jpim_s", "nest_s", "sib", "upd2", "diamond", "retry_s", "grp2"]
+LIVE_QUICK = ["chain2", "alw", "jpim_s"]
+LIVE_THOROUGH = ["chain2", "alw", "nest_s", "jpim_s", "sib", "upd2", "diamond", "grp2", "clean"]
 
 
 def run(ctx):
